@@ -1084,11 +1084,36 @@ def check_selection(ctx, bulk, tag="cands", in_order=False):
         d["pens"][k] = pen
         d["used"][k] = s_
     ctx.count_oracle("selection_minimal", len(bper))
+    deviations = []
+    nfail = 0
     for c, d in bper.items():
-        if d["used"] != d["pens"]:
-            ctx.direct_failure("ranking_score", {"case": c}, "score used for ranking %s differs from the documented penalty %s" % (d["used"], d["pens"]))
-        elif len(d["pens"]) != 8 or d["pens"][d["chosen"]] != min(d["pens"].values()):
-            ctx.direct_failure("selection_minimal", {"case": c}, "chosen mask %d, penalties %s" % (d["chosen"], d["pens"]))
+        if len(d["pens"]) != 8 or d["pens"][d["chosen"]] != min(d["pens"].values()):
+            nfail += 1
+            ctx.direct_failure("selection_minimal", {"case": c}, "chosen mask %d has documented penalty %d, the minimum is %d; documented penalties %s, scores used for ranking %s"
+                               % (d["chosen"], d["pens"].get(d["chosen"], -1), min(d["pens"].values()), d["pens"], d["used"]))
+        elif d["used"] != d["pens"]:
+            deviations.append((c, d))
+    # A score used for ranking that is not the documented penalty, while the emitted mask is still a minimal one, does not by
+    # itself contradict the property (the statement is about the emitted mask): it breaks the tie (the proof of minimality goes
+    # through score = penalty), so a failing selection is searched for -- once per run, 20 000 small symbols -- and, failing that,
+    # the deviation is reported as a broken correspondence.
+    if deviations and not nfail:
+        if not getattr(ctx, "_selection_search_done", False) and not tag.startswith("search"):
+            ctx._selection_search_done = True
+            rng = ctx.rng
+            extra = []
+            for i in range(20000):
+                m = rng.choice([0, 1, 2, 2])
+                extra.append(build_case(None, rng.randrange(4), None, None, payload(rng, m, rng.randrange(1, 40), "ascii" if m == 2 else "random"), "cands"))
+            before = len(ctx.oracle_failures)
+            check_selection(ctx, extra, "search_" + tag)
+            if len(ctx.oracle_failures) > before:
+                return
+        for c, d in deviations[:5]:
+            if len(ctx.tie_failures) < 20:
+                ctx.tie_failures.append({"stream": "ranking-score", "case": c, "implementation": "scores used for ranking %s" % d["used"],
+                                         "model": "documented penalties %s" % d["pens"],
+                                         "note": "the emitted mask is still a minimal one on this input; no input with a non-minimal emitted mask was found"})
 
 
 def run_C11(ctx):
@@ -1104,37 +1129,7 @@ def run_C11(ctx):
     cases.append(build_case(None, 1, None, None, b"ijn9yxotqetxvh:4idqb76h7b03m:r:e0pepds4eeh7hhd", "sel"))
     impl, _ = ctx.correspond("select", cases)
     # penalty oracle on the very candidates of the real loop
-    cc = [c.replace("sel ", "cands ", 1) for c in cases]
-    co = ctx.run_impl("cands", cc)
-    tr = []
-    meta = []
-    for c, o in zip(cc, co):
-        p = o.split()
-        if len(p) < 3 or p[0] != "OK":
-            continue
-        chosen, n_ = int(p[1]), p[2]
-        for tok in p[3:]:
-            k, s, hx = tok.split(":")
-            tr.append(("openalty %s %s" % (n_, hx), None, None))
-            meta.append((c, chosen, int(k), int(s)))
-    outs = run_exe(FQM, [t[0] for t in tr], "o_pen")
-    ctx.count_oracle("iso_penalty", len(outs))
-    per = {}
-    for (c, chosen, k, s), got in zip(meta, outs):
-        try:
-            pen = int(got)
-        except ValueError:
-            ctx.direct_failure("iso_penalty", {"case": c}, "oracle output " + got[:60])
-            continue
-        per.setdefault(c, {"chosen": chosen, "pens": {}, "used": {}})
-        per[c]["pens"][k] = pen
-        per[c]["used"][k] = s
-    ctx.count_oracle("selection_minimal", len(per))
-    for c, d in per.items():
-        if d["used"] != d["pens"]:
-            ctx.direct_failure("ranking_score", {"case": c}, "score used for ranking %s differs from the documented penalty %s" % (d["used"], d["pens"]))
-        elif len(d["pens"]) != 8 or d["pens"][d["chosen"]] != min(d["pens"].values()):
-            ctx.direct_failure("selection_minimal", {"case": c}, "chosen mask %d, penalties %s" % (d["chosen"], d["pens"]))
+    check_selection(ctx, [c.replace("sel ", "cands ", 1) for c in cases], "cands")
     # bulk witness search on small symbols (implementation + documented-penalty oracle only; the model is not run): a
     # deviation of the ranking score that matters only when two candidates are nearly tied needs many selections to show
     bulk = []
@@ -1206,6 +1201,22 @@ def run_C11(ctx):
         if len(q) == 2:
             tr.append(("openline %s" % c.split()[1], "%s %s" % (q[0], q[1]), {"case": c}))
     ctx.oracle("line_spec", tr)
+    # the scanners deviate from the documented penalty on a raw line / a synthetic matrix: by the statement of C11 that is a broken
+    # tie (the scorer is not the documented penalty any more), not yet a non-minimal emitted mask -- search for one
+    moved = [f for f in ctx.oracle_failures if f.get("oracle") in ("penalty_parts", "line_spec")]
+    if moved:
+        ctx.oracle_failures[:] = [f for f in ctx.oracle_failures if f.get("oracle") not in ("penalty_parts", "line_spec")]
+        if not getattr(ctx, "_selection_search_done", False):
+            ctx._selection_search_done = True
+            extra = []
+            for i in range(20000):
+                m = rng.choice([0, 1, 2, 2])
+                extra.append(build_case(None, rng.randrange(4), None, None, payload(rng, m, rng.randrange(1, 40), "ascii" if m == 2 else "random"), "cands"))
+            check_selection(ctx, extra, "search_scanners")
+        for f in moved[:5]:
+            if len(ctx.tie_failures) < 20:
+                ctx.tie_failures.append({"stream": "scanner-vs-documented-penalty:" + f["oracle"], "case": (f.get("input") or {}).get("case", ""),
+                                         "implementation": f.get("expected", ""), "model": f.get("got", "")})
     sp = [c.replace("build ", "cands ", 1) for c in special_builds(ctx, quick_big=True) if c.split()[4] == "-" and precondition_ok(c)]
     check_selection(ctx, sp, "cands_special")
     # every version: a payload filling the version and a tiny one (per-version constants of a scorer show here)
